@@ -45,7 +45,7 @@ ASSUMPTIONS = [
 FAULT_KINDS = ["read-error-EIO", "consumer-stop-close", "consumer-stop-drop", "raise-downstream",
                "raise-upstream-source", "raise-upstream-element", "drop_cache",
                "recompute", "process-crash"]
-EXPECTED_PROBES = ["read-error-surfaced-loudly", "replay-run", "replay-after-interrupted-run", "stop-at-exact-length",
+EXPECTED_PROBES = ["same-object-reused", "split-form-replay", "read-error-surfaced-loudly", "replay-run", "replay-after-interrupted-run", "stop-at-exact-length",
                    "two-caches-inner-replay", "hoisted-to-source", "empty-flow-cached",
                    "interrupted-recompute-over-existing-cache", "accumulator-upstream-of-replay"]
 
@@ -75,11 +75,15 @@ class Op(object):
 def gen_scenario(tape):
     sc = Op()
     sc.with_context = bool(tape.draw(2, "context"))
-    sc.form = tape.choice(["sequence", "source"], "form")
+    sc.form = tape.weighted([(3, "sequence"), (3, "source"), (2, "split")], "form")
+    # the same pipeline object (same Cache elements) is used for every run of the history
+    sc.reuse = tape.chance(1, 4, "reuse-objects")
     sc.ncaches = tape.weighted([(3, 1), (2, 2)], "ncaches")
     sc.npre = tape.draw(3, "npre")
     sc.pre_kinds = [tape.choice(["call", "run"], "prekind") for _ in range(sc.npre)]
-    sc.fc = tape.chance(1, 6, "fc-upstream")
+    sc.fc = tape.chance(1, 6, "fc-upstream") and not sc.reuse
+    sc.recompute_fixed = [tape.chance(1, 4, "recompute-fixed") for _ in range(2)]
+    sc.bare = bool(tape.draw(2, "bare-cache-in-split"))
     sc.nmid = tape.draw(2, "nmid") if sc.ncaches == 2 else 0
     sc.npost = tape.draw(3, "npost")
     sc.post_kinds = [tape.choice(["call", "run"], "postkind") for _ in range(sc.npost)]
@@ -96,6 +100,10 @@ def gen_scenario(tape):
         op.n = tape.draw(7, "flowlen")
         op.recompute = [tape.chance(1, 6, "recompute") for _ in range(sc.ncaches)]
         op.hoist = tape.weighted([(4, "none"), (2, "cache"), (1, "core")], "hoist")
+        if sc.reuse:
+            op.recompute = sc.recompute_fixed[:sc.ncaches]
+        if sc.form == "split":
+            op.hoist = "none"
         op.k = 0
         op.how = "close"
         op.target = None
@@ -136,27 +144,23 @@ FNAMES = {
 
 
 class Pipeline(object):
-    """One freshly built pipeline object (a new process in real life)."""
+    """One pipeline object (a new process in real life, unless the scenario
+    re-uses the same object for every run of the history)."""
 
     def __init__(self, sc, op, log, r):
-        self.src = SimSource(log, "src", op.n, lambda i: value(r, i, sc.with_context),
-                             raise_at=op.k if (op.kind == "raise-up" and op.target == "src") else None)
-
-        def mk(kind, name):
-            ra = op.k if (op.kind in ("raise-up", "raise-down") and op.target == name) else None
-            if kind == "call":
-                return ProbeCall(log, name, raise_at=ra)
-            return ProbeRun(log, name, raise_at=ra)
-
-        self.pre = [mk(sc.pre_kinds[i], "pre%d" % i) for i in range(sc.npre)]
+        self.sc = sc
+        self.log = log
+        self.pre = [self._mk(sc.pre_kinds[i], "pre%d" % i) for i in range(sc.npre)]
         self.fc = ProbeFC(log, "fc", stamp=("v", r, -1)) if sc.fc else None
-        self.mid = [mk("call", "mid%d" % i) for i in range(sc.nmid)]
-        self.post = [mk(sc.post_kinds[i], "post%d" % i) for i in range(sc.npost)]
+        self.mid = [self._mk("call", "mid%d" % i) for i in range(sc.nmid)]
+        self.post = [self._mk(sc.post_kinds[i], "post%d" % i) for i in range(sc.npost)]
         self.caches = [
             lena.flow.Cache(FNAMES[(sc.fname_kind[c], c)], recompute=op.recompute[c],
                             method=sc.method, protocol=sc.protocol)
             for c in range(sc.ncaches)
         ]
+        self.src = None
+        self.configure(op, r)
         els = []
         if "formatted" in sc.fname_kind:
             els.append(lena.meta.SetContext("tag", "T"))
@@ -174,17 +178,47 @@ class Pipeline(object):
         els.extend(self.post)
         if sc.form == "sequence":
             self.seq = lena.core.Sequence(*els)
+        elif sc.form == "source":
+            self.seq = lena.core.Source(self.current_source, *els)
         else:
-            self.seq = lena.core.Source(self.src, *els)
+            if len(els) == 1 and sc.bare:
+                branch = els[0]
+            else:
+                branch = lena.core.Sequence(*els)
+            self.seq = lena.core.Split([branch], bufsize=None)
         self.form = sc.form
+
+    def _mk(self, kind, name):
+        if kind == "call":
+            return ProbeCall(self.log, name)
+        return ProbeRun(self.log, name)
+
+    def current_source(self):
+        return self.src
+
+    def configure(self, op, r):
+        """Prepare for run r: a new input flow, the fault plan, zeroed counters."""
+        sc = self.sc
+        self.src = SimSource(self.log, "src", op.n, lambda i: value(r, i, sc.with_context),
+                             raise_at=op.k if (op.kind == "raise-up" and op.target == "src") else None)
+        for p in self.pre + self.mid + self.post:
+            p.raise_at = op.k if (op.kind in ("raise-up", "raise-down")
+                                  and op.target == p.name) else None
+            p.calls = 0
+            p.seen = 0
+        if self.fc is not None:
+            self.fc.nfills = 0
+            self.fc.computes = 0
 
     def start(self, hoist):
         """Return (generator, hoisted?)."""
         seq = self.seq
         hoisted = False
+        if self.form == "split":
+            return seq.run(self.src), False
         if hoist == "cache":
             seq = lena.flow.Cache.alter_sequence(seq)
-        elif hoist == "core" :
+        elif hoist == "core":
             seq = lena.core.alter_sequence(seq)
         if isinstance(seq, lena.core.Source):
             hoisted = seq is not self.seq
@@ -193,7 +227,8 @@ class Pipeline(object):
 
     def upstream_activity(self, cache_index):
         """How much the elements upstream of cache *cache_index* worked."""
-        n = self.src.attempts
+        # a Split reads its block from the source before it runs any branch
+        n = self.src.attempts if self.form != "split" else 0
         for p in self.pre:
             n += getattr(p, "calls", 0) + getattr(p, "seen", 0)
         if self.fc is not None:
@@ -230,9 +265,12 @@ def model_run(sc, op, r, combo):
     dumped = {}
     # stages after the starting point
     stages = []
+    if sc.form == "split" and fault and fault[0] == "src" and fault[1] < op.n:
+        # Split reads the whole block before any branch runs
+        fired = ("pre-output", 0)
     if last is None:
         flow = [value(r, i, sc.with_context) for i in range(op.n)]
-        if fault and fault[0] == "src" and fault[1] < op.n:
+        if fault and fault[0] == "src" and fault[1] < op.n and fired is None:
             fired = ("pre-output", 0) if sc.fc else ("at", fault[1])
         stages += [("el", "pre%d" % i) for i in range(sc.npre)]
         if sc.fc:
@@ -293,6 +331,10 @@ def run(tape):
                              sc.pre_kinds, sc.fc, sc.nmid, sc.post_kinds, sc.nest,
                              sc.with_context, sc.protocol))
     allowed = [[None] for _ in range(sc.ncaches)]
+    shared = {"pl": None}
+    if sc.reuse:
+        res.say("the same pipeline object is used for every operation (recompute=%s)"
+                % sc.recompute_fixed[:sc.ncaches])
     last_interrupt = None      # kind of the last interrupted dump run
     interrupted_before = False
     r = 0
@@ -306,7 +348,12 @@ def run(tape):
                 log.ev("op", "drop_cache", op.target)
                 res.say("drop_cache(cache %d)" % (op.target + 1))
                 res.fault("drop_cache")
-                pl = Pipeline(sc, _plain_op(sc), log, -1)
+                if sc.reuse and shared["pl"] is not None:
+                    pl = shared["pl"]
+                else:
+                    pl = Pipeline(sc, _plain_op(sc), log, -1)
+                    if sc.reuse:
+                        shared["pl"] = pl
                 try:
                     pl.caches[op.target].drop_cache()
                 except OSError:
@@ -338,7 +385,7 @@ def run(tape):
             eio_before = fs.fired.get("EIO", 0)
             if op.eio:
                 fs.eio_at = op.eio
-            obs = execute_run(sc, op, log, r, res, fs)
+            obs = execute_run(sc, op, log, r, res, fs, shared)
             fs.eio_at = None
             obs["eio"] = fs.fired.get("EIO", 0) > eio_before
             if obs["eio"]:
@@ -351,6 +398,7 @@ def run(tape):
                 if crashed:
                     res.fault("process-crash")
                     fs.restart()
+                    shared["pl"] = None
                     beyond_crash(sc, res, fs, log, allowed, r, op)
                     # state after a crash is outside the model: stop judging
                     break
@@ -380,14 +428,14 @@ def _plain_op(sc):
     op.n = 0
     op.k = 0
     op.target = None
-    op.recompute = [False] * sc.ncaches
+    op.recompute = sc.recompute_fixed[:sc.ncaches] if sc.reuse else [False] * sc.ncaches
     op.hoist = "none"
     op.eio = None
     op.crash = None
     return op
 
 
-def execute_run(sc, op, log, r, res, fs):
+def execute_run(sc, op, log, r, res, fs, shared=None):
     out = []
     exc = None
     exhausted = False
@@ -395,7 +443,14 @@ def execute_run(sc, op, log, r, res, fs):
     pl = None
     gen = None
     try:
-        pl = Pipeline(sc, op, log, r)
+        if shared is not None and sc.reuse and shared["pl"] is not None:
+            pl = shared["pl"]
+            pl.configure(op, r)
+            res.probe("same-object-reused")
+        else:
+            pl = Pipeline(sc, op, log, r)
+            if shared is not None and sc.reuse:
+                shared["pl"] = pl
         gen, hoisted = pl.start(op.hoist)
         want = op.k if op.kind == "stop" else None
         while want is None or len(out) < want:
@@ -493,6 +548,8 @@ def judge(sc, op, r, obs, allowed, res, fs, ops_before, last_interrupt, interrup
                     res.probe("two-caches-inner-replay")
                 if obs["hoisted"]:
                     res.probe("hoisted-to-source")
+                if sc.form == "split":
+                    res.probe("split-form-replay")
                 if len(combo[exp["replay_from"]]) == 0:
                     res.probe("empty-flow-cached")
                 if sc.fc:
